@@ -11,7 +11,10 @@ theorem loadLeaf_errClear (t : Ty) (p : PCol) (n : Nat) (b : Bitmap) (v : Vec)
     (h : loadLeaf t p n b = some v) : Vec.errClear v = true := by
   unfold loadLeaf at h
   split at h
-  · cases h
+  · cases p with
+    | const x c => simp at h; subst h; rfl
+    | dict es sel c => simp at h
+    | plain vals c => simp at h
   · cases p with
     | const x c => simp at h; subst h; rfl
     | dict es sel c => simp at h; subst h; rfl
